@@ -55,36 +55,42 @@ SPEC = dict(
     histogram=histogram,
     rule="DNA (K=5) scoring matrices of width 1..8 (all 4^M / 5^M words enumerable; kind `large`: width 9..12 quick / 9..16 thorough, "
          "structural checks and bit-exact replay only) and protein (K=21) matrices of width 1..3 (20^M / 21^M words; widths 4..6, thorough ..8: replay only) "
-         "in 16 rotating kinds: random f32 cells, cells quantised to "
+         "in 20 rotating kinds: random f32 cells, cells quantised to "
          "1/8..1 (ties, exact half steps), count matrices -> frequencies -> log-odds through the library, finite "
          "wildcard column, constant matrices, `roundup` (width 6..8, integer offset/scale, every row maximum placed just "
-         "above a half step so that all row maxima round up), narrow range on a large offset, range around/above 1000 (fractional scale "
+         "above a half step so that all row maxima round up), `skew` (width 5..7, thorough ..8: one or two symbols of probability 2^-11..2^-20 carry the best cell of every row, best words down to 2^-160), `long` (width 27..40, thorough ..48, integer cells, a third of them with such a skewed background; exact tails on the integer grid of the scores), `widerow` (width 2..6, range above 1000 caused by one wide entry in the first / a middle row), narrow range on a large offset, range around/above 1000 (fractional scale "
          "..2), huge cells (offset beyond i32), wildcard-mass backgrounds, NaN/+inf/-inf cells (replay only); "
          "backgrounds: uniform, dyadic non-uniform (exact sum 1, sometimes a zero symbol), from_counts and decimal "
          "(f32 sum 1, real sum 1 +- 1e-7), wildcard mass. Per matrix ~75 scores probed with pvalue (attainable "
-         "word scores, their f32 neighbours, +-half a step, +-d, below the minimum, above the maximum, +-1e30, "
+         "word scores, their f32 neighbours, +-half a step, +-d, below the minimum (for the best word also next_down((best - d) as f32) "
+         "and best - 1.5 d), above the maximum, +-1e30, "
          "+-inf, NaN) and ~45 p-values probed with score and pvalue(score(p)) (grid, j/4^M, exact table entries and "
          "their f64 neighbours, 0, 1, outside [0,1], NaN). Observables: every entry of sf() as a bit pattern, "
-         "min_pvalue, every pvalue/score/round-trip result as a bit pattern, panics. PROPFAIL = the extracted Coq "
+         "min_pvalue, every pvalue/score/round-trip result as a bit pattern, scale(score) of every pvalue probe and unscale(i) of 0, 1, len-1, len and the probed table indices (the two public helpers called directly), panics. PROPFAIL = the extracted Coq "
          "checker check_C11_fails (sound: C11.check_C11_sound) returns a failure on the implementation's observations "
          "of a case inside the property's domain (c11_in_scope: finite non-wildcard cells, wildcard finite or -inf): "
          "table non-increasing in [0,1] (exact IEEE compare); "
          "P(S>=s+d)*(1-2^-30)-delta <= pvalue(s) <= P(S>=s-d)*(1+2^-30)+delta with the exact tails from the "
-         "integer word table of the dyadic matrix (= tail_exact by C11_tail_dyadic_correct / C11_dyadic_values; "
+         "integer word table of the dyadic matrix (= tail_exact by C11_tail_dyadic_correct / C11_dyadic_values) or, when smaller (at "
+         "most 20000 entries: long motifs, quantised cells), from the table with one entry per distinct word score "
+         "(DistGridModel.conv_tableZ; the checker through it is check_C11_fails as a function, C11_grid_checker_eq; weights without "
+         "their common power of two: C11_red_checker_eq; "
          "delta = |1-(sum b)^M|, 0 for dyadic backgrounds; skipped for more than 70000 words or beyond a per-case "
          "budget of 2.5e6 word visits); "
          "p-values non-increasing over all probe pairs; pvalue(score(p)) <= p (IEEE) or <= p*(1+2^-30)+delta for p in "
-         "(0,1); or a panic of to_score_distribution/pvalue/score(p in (0,1)) inside the domain (reported by the "
-         "driver). DIFF: any bit of the sf table, min_pvalue, pvalue, score or round trip differing from the "
+         "(0,1); or a panic of to_score_distribution/pvalue/score(p in (0,1)) inside the domain, also when the model does not panic "
+         "(reported by the driver). DIFF: any bit of the sf table, min_pvalue, pvalue, score or round trip differing from the "
          "extracted binary64 model (Flocq), or a panic on one side only. Non-trivial: distinct (matrix, background) "
-         "inside the property's domain with width <= 8.",
+         "inside the property's domain with width <= 8, or of kind `long`. 37 theorems in coq/dist/C11.v.",
     trusted_base=[
         "Coq 8.16.1 kernel (coqc); vm_compute in the Example/_refuted lemmas only; no native_compute",
         "Flocq 4.1.0 (BinarySingleNaN) as the meaning of IEEE binary32/binary64 arithmetic (LMBase.IEEE)",
         "extraction: ExtrOcamlBasic only (nat, Z, positive, Q kept as extracted inductives); OCaml 4.13.1",
         "hand-written OCaml driver ocaml/dist/driver.ml (parsing, bit-pattern comparison with the model, choice of "
         "which probes are handed to check_C11_fails for the bracket check under the time budget, reporting of panics "
-        "inside the domain, labelling of failures for the known-findings match)",
+        "inside the domain, labelling of failures for the known-findings match; choice between the word table and the grid table by an "
+        "upper bound of the number of distinct scores (both give tail_exact: C11_tail_dyadic_correct, C11_tail_grid_correct); runs "
+        "build_fast (= build: C11_build_fast_eq))",
         "translator translate/dist_skel.py (regex / brace-matching reader of dist.rs: CDF_RANGE, the statement skeleton "
         "of From<ScoringMatrix> for ScoreDistribution and of the methods, loop bounds, clip sites, skip marker, rounding "
         "function; it never guesses: an unreadable source is a broken obligation)",
@@ -117,5 +123,13 @@ SPEC = dict(
         "d6e308b (fractional scale), 5ab0464 (f64 offset); every panic site of the code is an explicit Panic of the "
         "model, compared with the implementation on every case; C11_build_total: no panic site is reachable in build "
         "inside the domain (exact arithmetic)",
+        "C11_max_score_is_best_word, C11_min_pvalue_is_best, C11_best_score_tail, C11_score_below_min_pvalue, C11_no_word_lost: "
+        "exact-rational instance, non-negative weights of total mass <= 1 (C11_score_below_min_pvalue also 1000*M < 2^31-1)",
+        "C11_scale_monotone_binary64, C11_pvalue_monotone_binary64: binary64 itself (Flocq), for a finite w*offset and a finite "
+        "positive scale; the latter under the computable predicate f64_mono_pred (table non-increasing in [0,1], non-empty, "
+        "min_score >= 0)",
+        "C11_max_score_structural, C11_min_pvalue_structural: every numeric carrier (binary64 included), no arithmetic assumption",
+        "a best-word probability below 2^-1074 (e.g. 60 columns with a 2^-20 consensus symbol) is not representable: the generator "
+        "keeps e*M <= 960",
     ],
 )
